@@ -50,7 +50,7 @@ def run_case(reg, target, case):
             return None, "precondition not evaluable: %s: %s" % (r, e)
         if not ok:
             return None, "precondition false: " + r
-    ev.snapshot_with_originals({k: v for k, v in args.items() if k in case.get("snapshot", args)})
+    ev.snapshot_with_originals(dict(args))
     for k in args:
         ev.pre.setdefault(k, args[k])
     raised = None
